@@ -264,6 +264,10 @@ pub fn configs(thorough: bool) -> Vec<Cfg> {
             v.push(Cfg { rules: vec![RuleCfg { metric: a, bbr: ba, threshold: ta }, RuleCfg { metric: b, bbr: bb, threshold: tb }], phase: 250 });
         }
     }
+    // two rules of the same metric (they share one bucket of the manager's map): the tighter one decides
+    for (m, a, b) in [(Metric::Concurrency, 3.0, 1.0), (Metric::InboundQPS, 1.0, 3.0), (Metric::AvgRT, 10.0, 1.0), (Metric::Load, 0.5, 0.0)] {
+        v.push(Cfg { rules: vec![RuleCfg { metric: m, bbr: false, threshold: a }, RuleCfg { metric: m, bbr: false, threshold: b }], phase: 1 });
+    }
     // an invalid rule next to a valid one must be ignored
     v.push(Cfg { rules: vec![RuleCfg { metric: Metric::Load, bbr: false, threshold: 2.0 }, RuleCfg { metric: Metric::Concurrency, bbr: false, threshold: 1.0 }], phase: 0 });
     v
